@@ -10,12 +10,12 @@
   N when the defect is 0; q_bb = A Q Aᵀ is a symmetric idempotent matrix with diagonal in [0,1]
   and Σ(1 − q_bb_ii) = m − rank A.  Same scalars / hypothesis as Props/C01/Gso.lean.
 
-  NOT PROVED here (`C03_belongs`): Q = T_S Q0 T_Sᵀ "belongs to the chosen regularisation"
-  (Q maps into the S-orthogonal complement of ker A); what is missing is the S-orthogonality of
-  the *rows* of C to the kernel columns after the second orthogonalisation (the same argument as
-  for x in C01, applied to every independent column — the invariants are there, the assembly is not).
+  `C03_gso_belongs`: Q belongs to the chosen regularisation — it maps into the S-orthogonal
+  complement of ker A (every column of C is S-orthogonal to the kernel after the second
+  orthogonalisation), the property that singles out Q among the reflexive g-inverses
+  (LS8: Q = T_S Q0 T_Sᵀ).
 -/
-import Gama.Lemmas.Ls.GsoCof
+import Gama.Lemmas.Ls.GsoMore
 import Gama.Lemmas.Ls.GsoReal
 import Gama.Lemmas.LS
 namespace Gama.Props.C03
@@ -82,9 +82,16 @@ theorem C03_gso_qbb (p : Problem K) (hU : Unambiguous p) :
   rw [hA] at this
   simpa using this
 
+/-- Q belongs to the regularisation: `Q y` is S-orthogonal to the kernel of `A` for every `y`
+    (so the cofactors describe the S-minimal solution, not another g-inverse) -/
+theorem C03_gso_belongs (p : Problem K) (hU : Unambiguous p) (y g : Fin p.n → K)
+    (hg : p.A *ᵥ g = 0) :
+    ∑ i ∈ p.S, ((gsoC p * (gsoC p)ᵀ) *ᵥ y) i * g i = 0 :=
+  gso_Q_belongs p hU y g hg
+
 /-- non-vacuity: the singular problem `Ex.pR` over ℝ meets the hypotheses -/
 example : Unambiguous Ex.pR ∧ ∃ a, gsoSolve Ex.pR = .ok a ∧ a.defect = 1 := by
-  obtain ⟨a, _, h2, _, _, h5, _⟩ := Ex.pR_answers
+  obtain ⟨a, h2, _, _, h5, _⟩ := Ex.pR_answers
   exact ⟨Ex.pR_unambiguous, a, h2, h5⟩
 
 end Gama.Props.C03
